@@ -405,6 +405,14 @@ func main() {
 	const n = 16
 	total := seq.Stats{Outcomes: map[string]int{}, Complete: true, DepthCompleted: depth}
 	loads := 0
+	shard.OnDeath = func(i int, tail string) {
+		total.Complete = false
+		key := "load-kills-process"
+		if !strings.Contains(tail, "out of memory") {
+			key = "worker-died"
+		}
+		run.Violation(key, fmt.Sprintf("worker %d died while round-tripping index states (memory limit 6 GiB): %s", i, tail), map[string]interface{}{"shard": i})
+	}
 	shard.Run(n, n, nil, func(i int, raw []byte) error {
 		var r result
 		if err := json.Unmarshal(raw, &r); err != nil {
